@@ -32,6 +32,11 @@ type Store struct {
 	leaseByMAC      map[string][]string // MAC -> lease IDs, oldest first (a client may hold several leases)
 	sessionByMAC    map[string][]string // MAC -> session IDs, oldest first (e.g. IPoE + PPPoE of one CPE)
 	sessionByIP     map[string]string   // IP -> session ID
+	// Keys under which each lease / session is currently indexed. The records
+	// themselves are handed out by pointer and may be modified in place before
+	// Update is called, so the previous keys cannot be read back from them.
+	leaseKeys   map[string]indexKeys // lease ID -> indexed keys
+	sessionKeys map[string]indexKeys // session ID -> indexed keys
 	natByPrivate    map[string]string   // "ip:port:proto" -> binding ID
 	natByPublic     map[string]string   // "ip:port:proto" -> binding ID
 
@@ -89,6 +94,8 @@ func NewStore(config Config, logger *zap.Logger) *Store {
 		leaseByMAC:      make(map[string][]string),
 		sessionByMAC:    make(map[string][]string),
 		sessionByIP:     make(map[string]string),
+		leaseKeys:       make(map[string]indexKeys),
+		sessionKeys:     make(map[string]indexKeys),
 		natByPrivate:    make(map[string]string),
 		natByPublic:     make(map[string]string),
 		ctx:             ctx,
@@ -478,49 +485,69 @@ func indexNewest(idx map[string][]string, key string) (string, bool) {
 	return ids[len(ids)-1], true
 }
 
+// indexKeys are the secondary-index keys recorded for one lease or session ("" = not indexed).
+type indexKeys struct {
+	mac, ipv4, ipv6 string
+}
+
 // indexLease / unindexLease maintain leaseByIP and leaseByMAC for one lease.
-// An entry is only removed if it still points at this lease. Caller holds s.mu.
+// unindexLease removes the keys the lease was indexed under (not the ones it
+// carries now: the caller may have modified it in place); an IP entry is only
+// removed if it still points at this lease. Caller holds s.mu.
 func (s *Store) indexLease(lease *Lease) {
+	var k indexKeys
 	if lease.IPv4 != nil {
-		s.leaseByIP[lease.IPv4.String()] = lease.ID
+		k.ipv4 = lease.IPv4.String()
+		s.leaseByIP[k.ipv4] = lease.ID
 	}
 	if lease.IPv6 != nil {
-		s.leaseByIP[lease.IPv6.String()] = lease.ID
+		k.ipv6 = lease.IPv6.String()
+		s.leaseByIP[k.ipv6] = lease.ID
 	}
 	if lease.MAC != nil {
-		indexAdd(s.leaseByMAC, lease.MAC.String(), lease.ID)
+		k.mac = lease.MAC.String()
+		indexAdd(s.leaseByMAC, k.mac, lease.ID)
 	}
+	s.leaseKeys[lease.ID] = k
 }
 
 func (s *Store) unindexLease(lease *Lease) {
-	if lease.IPv4 != nil && s.leaseByIP[lease.IPv4.String()] == lease.ID {
-		delete(s.leaseByIP, lease.IPv4.String())
+	k := s.leaseKeys[lease.ID]
+	if k.ipv4 != "" && s.leaseByIP[k.ipv4] == lease.ID {
+		delete(s.leaseByIP, k.ipv4)
 	}
-	if lease.IPv6 != nil && s.leaseByIP[lease.IPv6.String()] == lease.ID {
-		delete(s.leaseByIP, lease.IPv6.String())
+	if k.ipv6 != "" && s.leaseByIP[k.ipv6] == lease.ID {
+		delete(s.leaseByIP, k.ipv6)
 	}
-	if lease.MAC != nil {
-		indexRemove(s.leaseByMAC, lease.MAC.String(), lease.ID)
+	if k.mac != "" {
+		indexRemove(s.leaseByMAC, k.mac, lease.ID)
 	}
+	delete(s.leaseKeys, lease.ID)
 }
 
 // indexSession / unindexSession maintain sessionByMAC and sessionByIP for one session. Caller holds s.mu.
 func (s *Store) indexSession(session *Session) {
+	var k indexKeys
 	if session.MAC != nil {
-		indexAdd(s.sessionByMAC, session.MAC.String(), session.ID)
+		k.mac = session.MAC.String()
+		indexAdd(s.sessionByMAC, k.mac, session.ID)
 	}
 	if session.IPv4 != nil {
-		s.sessionByIP[session.IPv4.String()] = session.ID
+		k.ipv4 = session.IPv4.String()
+		s.sessionByIP[k.ipv4] = session.ID
 	}
+	s.sessionKeys[session.ID] = k
 }
 
 func (s *Store) unindexSession(session *Session) {
-	if session.MAC != nil {
-		indexRemove(s.sessionByMAC, session.MAC.String(), session.ID)
+	k := s.sessionKeys[session.ID]
+	if k.mac != "" {
+		indexRemove(s.sessionByMAC, k.mac, session.ID)
 	}
-	if session.IPv4 != nil && s.sessionByIP[session.IPv4.String()] == session.ID {
-		delete(s.sessionByIP, session.IPv4.String())
+	if k.ipv4 != "" && s.sessionByIP[k.ipv4] == session.ID {
+		delete(s.sessionByIP, k.ipv4)
 	}
+	delete(s.sessionKeys, session.ID)
 }
 
 // --- Lease Operations ---
@@ -543,18 +570,8 @@ func (s *Store) CreateLease(lease *Lease) error {
 
 	s.leases[lease.ID] = lease
 
-	// Index by IP
-	if lease.IPv4 != nil {
-		s.leaseByIP[lease.IPv4.String()] = lease.ID
-	}
-	if lease.IPv6 != nil {
-		s.leaseByIP[lease.IPv6.String()] = lease.ID
-	}
-
-	// Index by MAC
-	if lease.MAC != nil {
-		indexAdd(s.leaseByMAC, lease.MAC.String(), lease.ID)
-	}
+	// Index by IP and MAC
+	s.indexLease(lease)
 
 	// Update pool allocation count
 	if pool, exists := s.pools[lease.PoolID]; exists {
@@ -619,10 +636,9 @@ func (s *Store) UpdateLease(lease *Lease) error {
 		return fmt.Errorf("lease not found: %s", lease.ID)
 	}
 
-	// Keep the secondary indexes in step with changed MAC / addresses
-	if existing != lease {
-		s.unindexLease(existing)
-	}
+	// Keep the secondary indexes in step with changed MAC / addresses (also
+	// when the caller modified the stored record in place and hands it back)
+	s.unindexLease(existing)
 	s.indexLease(lease)
 
 	lease.UpdatedAt = time.Now()
@@ -709,15 +725,8 @@ func (s *Store) CreateSession(session *Session) error {
 
 	s.sessions[session.ID] = session
 
-	// Index by MAC
-	if session.MAC != nil {
-		indexAdd(s.sessionByMAC, session.MAC.String(), session.ID)
-	}
-
-	// Index by IP
-	if session.IPv4 != nil {
-		s.sessionByIP[session.IPv4.String()] = session.ID
-	}
+	// Index by MAC and IP
+	s.indexSession(session)
 
 	s.stats.Writes++
 	return nil
@@ -779,9 +788,8 @@ func (s *Store) UpdateSession(session *Session) error {
 
 	// Keep the secondary indexes in step with a changed MAC / address
 	// (a session usually learns its address after it was created)
-	if existing != session {
-		s.unindexSession(existing)
-	}
+	// (also when the caller modified the stored record in place and hands it back)
+	s.unindexSession(existing)
 	s.indexSession(session)
 
 	session.UpdatedAt = time.Now()
